@@ -40,3 +40,26 @@ Definition wf_typed (s : store) : Prop :=
 
 (* the kinds the property accepts for a MAC key (see notes/C04.md) *)
 Definition mac_kind (t : otype) : Prop := t = SymmetricKey \/ t = SecretData.
+
+(* "entered": one of the gated CryptographyEngine methods was called with the object's key material, whatever it
+   then returned.  Success (OK) is a special case. *)
+Definition entered (r : outcome) : Prop := r = OK \/ r = CryptoFail \/ r = CrashAfter.
+
+(* the key u exists, is of type t, is Active and its usage mask has bit b *)
+Definition usable (s : store) (u : Z) (t : otype) (b : Z) : Prop :=
+  exists ob, lookup u (objs s) = Some ob /\ oty ob = t /\ ost ob = Some Active /\ has_bit (omask ob) b = true.
+
+(* what must hold of the store for a cryptographic use to go ahead, per operation, as the code checks it *)
+Definition gate (s : store) (o : op) : Prop :=
+  match o with
+  | Encrypt u _ => usable s u SymmetricKey bENCRYPT
+  | Decrypt u _ => usable s u SymmetricKey bDECRYPT
+  | Sign u _ => usable s u PrivateKey bSIGN
+  | SignatureVerify u _ => usable s u PublicKey bVERIFY
+  | MAC u _ _ => exists ob, lookup u (objs s) = Some ob /\ ost ob = Some Active /\ has_bit (omask ob) bMAC_GENERATE = true
+  | GetWrap _ w => usable s w SymmetricKey bWRAP_KEY
+  | DeriveKey us _ =>
+      us <> [] /\ forall u, In u us -> exists ob, lookup u (objs s) = Some ob /\ derivable (oty ob) = true
+                                                   /\ has_bit (omask ob) bDERIVE_KEY = true
+  | _ => True
+  end.
